@@ -3,6 +3,7 @@
 package sim
 
 import (
+	"github.com/criyle/go-sandbox/pkg/seccomp"
 	"context"
 	"errors"
 	"fmt"
@@ -50,6 +51,8 @@ type s1op struct {
 	path      string
 	nfiles    int
 	fdExec    bool
+	fdCgroup  bool // a descriptor for clone-into-cgroup travels ahead of the file list too
+	seccomp   bool // a filter travels with the request
 	cancelOK  bool
 	badFile   int // >0: a descriptor number that is not open, at this position of the file list
 	manyFiles int // >0: so many entries in the file list
@@ -144,6 +147,8 @@ func genExecve(c *vcore.Ctx, usedCodes map[int]bool) *s1op {
 	op.syncAfter = src.Bool(1, 4, "syncAfter")
 	op.nfiles = src.Int(3, "nfiles")
 	op.fdExec = src.Bool(1, 4, "fexecve") // the executable travels as a descriptor ahead of the file list
+	op.fdCgroup = src.Bool(1, 5, "cgroupfd")
+	op.seccomp = src.Bool(1, 5, "filter")
 	st := src.Int(12, "stage")
 	switch {
 	case st == 0:
@@ -169,6 +174,10 @@ func genExecve(c *vcore.Ctx, usedCodes map[int]bool) *s1op {
 	case st == 8:
 		op.stage, op.plan = "lookup_in_path", planRun
 		op.args = []string{"prog"}
+		if src.Bool(1, 3, "path_with_empty_element") {
+			// an empty element of PATH means the working directory (where there is no such program)
+			op.env = []string{"PATH=:" + filepath.Join(s1Root, "bin") + ":"}
+		}
 	default:
 		op.stage, op.plan = "run", planRun
 	}
@@ -233,6 +242,11 @@ func genOpenItem(c *vcore.Ctx, i int) container.OpenCmd {
 		o.Path = dir // a directory
 	case 3:
 		o.Path = filepath.Join(dir, strings.Repeat("n", 300)) // ENAMETOOLONG
+		if src.Bool(1, 2, "mkdirall_below_a_file") {
+			// the directories to be made lie below something that is not a directory (when it is there)
+			o.Path = filepath.Join(dir, fmt.Sprintf("f%d", src.Int(6, "fname2")), "below", name)
+			o.MkdirAll = true
+		}
 	default:
 		// asking for the parent directories to be made changes nothing about what may be at the path itself
 		o.MkdirAll = src.Bool(1, 3, "mkdirall_plain")
@@ -499,6 +513,12 @@ func (s *s1Sim) call(ctx context.Context, op *s1op, out *s1res) {
 		if op.fdExec {
 			p.ExecFile = s.files[2].Fd()
 		}
+		if op.fdCgroup {
+			p.CgroupFD = s.files[1].Fd()
+		}
+		if op.seccomp {
+			p.Seccomp = seccomp.Filter{{Code: 0x06, K: 0x7fff0000}} // (return ALLOW; the stub process table does not load it)
+		}
 		p.SyncFunc = func(pid int) error {
 			out.synced = true
 			out.syncPid = pid
@@ -756,7 +776,7 @@ func (s *s1Sim) run() {
 		}
 		s.files = append(s.files, f)
 	}
-	conf := &container.VServerConf{WorkDir: filepath.Join(s1Root, "w"),
+	conf := &container.VServerConf{WorkDir: filepath.Join(s1Root, "w"), Cred: c.Src.Bool(1, 3, "conf_cred"),
 		TmpfsTargets: []string{strings.TrimPrefix(filepath.Join(s1Root, "w"), "/"), strings.TrimPrefix(filepath.Join(s1Root, "tmp"), "/")}}
 	w, err := newS1World(c, conf)
 	if err != nil {
@@ -1120,6 +1140,11 @@ func (s *s1Sim) checkOpen(op *s1op, out *s1res, site string) {
 			mustOK := (op.pre[k] == "regular" && req.Flag&os.O_EXCL == 0) ||
 				(op.pre[k] == "absent" && req.Flag&os.O_CREATE != 0 && len(filepath.Base(req.Path)) < 200)
 			_ = acc
+			for _, other := range op.open {
+				if other.MkdirAll && strings.HasPrefix(other.Path, req.Path+"/") {
+					mustOK = false // another item of the batch asks for a directory to be made at this very name
+				}
+			}
 			if mustOK {
 				s.fail("spurious_item_failure", "open", "Open item %d (%s, flags %#x, before the call: %s) failed: %v", k, req.Path, req.Flag, op.pre[k], r.Err)
 				return
